@@ -72,7 +72,11 @@ Inv_SplitComplete ==
             /\ FileBlocks(C.fns[k].fname) = BlocksOf(C.fns[k].call)
 
 \* ---- all calls of one function name are the same circuit with the same signature, or the difference is reported
-SameCircuit(j, k) == EqsOf(C.fns[j].call) = EqsOf(C.fns[k].call) /\ BlocksOf(C.fns[j].call) = BlocksOf(C.fns[k].call)
+\* equations are compared as MULTISETS (the backend compares the sorted lists of lines)
+Count(ctx, e) == Cardinality({i \in Eqs : CtxOf(C.eqs[i]) = ctx /\ Norm(C.eqs[i]) = e})
+SameCircuit(j, k) == /\ EqsOf(C.fns[j].call) = EqsOf(C.fns[k].call)
+                     /\ \A e \in EqsOf(C.fns[j].call) : Count(C.fns[j].call, e) = Count(C.fns[k].call, e)
+                     /\ BlocksOf(C.fns[j].call) = BlocksOf(C.fns[k].call)
 DigestOf(call) == LET D == {i \in DOMAIN C.digests : C.digests[i].id = call} IN IF D = {} THEN "" ELSE C.digests[CHOOSE i \in D : TRUE].digest
 Inv_SameFn ==
     (\A i \in Eqs : OneCtx(C.eqs[i])) =>
